@@ -423,7 +423,7 @@ for _p in ('C09', 'C01', 'C08'):
 SUBTYPE_TEST = [(BS, 'type.base::Asn1Type.isSuperTypeOf'), (BS, 'type.base::Asn1Type.isSameTypeWith'), (BS, 'type.base::Asn1Type._refine')]
 for _p in ('C14', 'C13'):
     PROPS[_p]['contracts'] = PROPS[_p]['contracts'] + SUBTYPE_TEST
-CER_SETOF = [(CE, 'cer.encoder::SetOfEncoder.encodeValue[up-to-3-members]')]
+CER_SETOF = [(CE, 'cer.encoder::SetOfEncoder.encodeValue[up-to-3-members]'), (CE, 'cer.encoder::SetEncoder.encodeValue[value-object,3-members]')]
 for _p in ('C03', 'C04', 'C02'):
     PROPS[_p]['contracts'] = PROPS[_p]['contracts'] + CER_SETOF
 PROPS['C19']['contracts'] = PROPS['C19']['contracts']    # (containers registered above)
